@@ -254,7 +254,7 @@ fn run(ctx: &Ctx, env: &Env) -> Stats {
                         let step = if ctx.quick() && w >= 32 { 3 } else { 1 };
                         for &v in &vals {
                             for off in (0..w).step_by(step) {
-                                let mut items = prefix_items(off, v + off as u64);
+                                let mut items = prefix_items(off, v.wrapping_add(off as u64));
                                 items.push(Item::Coded { code, v });
                                 let img = Img::Items { items, tail: Pat::Zeros, tail_bits: 0, seed: 0 };
                                 let mut ops = vec![];
